@@ -178,8 +178,15 @@ def _class_level_constant(repo, ci, node, name) -> bool:
         return False
     hit = class_constant(repo, ci.name, name)
     if hit is None:
-        return False
+        # an immutable snapshot built once at class creation (`NAMES = tuple(<registry>)`), assigned nowhere else
+        v = node.value if isinstance(node, ast.Assign) else None
+        frozen = isinstance(v, ast.Call) and isinstance(v.func, ast.Name) and v.func.id in ("tuple", "frozenset") and not v.keywords
+        stored = [x for m2 in repo.modules.values() for x in ast.walk(m2.tree) if isinstance(x, ast.Attribute)
+                  and x.attr == name and isinstance(x.ctx, (ast.Store, ast.Del))]
+        return bool(frozen) and not stored
     v = hit[1]
+    if isinstance(v, ast.Dict):
+        return True  # a dispatch table that nothing writes (class_constant checked that)
     immutable = lambda n: isinstance(n, (ast.Constant, ast.Attribute, ast.Name)) or (
         isinstance(n, ast.UnaryOp) and immutable(n.operand)) or (isinstance(n, ast.Tuple) and all(immutable(x) for x in n.elts))
     return immutable(v)
